@@ -393,7 +393,7 @@ Proof.
     destruct (IH r1 (i + 1) count l0) as (r & E & P & S); try lia; auto.
     exists r; repeat split; auto. intros W Hs. apply S; auto.
     intros a b Hab Hb. apply S1; auto; try lia.
-    + intros a' b' Hab' Hb' _ _. apply Hs; lia.
+    intros a' b' Hab' Hb' Na Nb. apply Hs; lia.
   - exists items; repeat split; auto. intros W Hs a b Hab Hb. apply Hs; lia.
 Qed.
 
@@ -404,7 +404,748 @@ Proof.
   intros l. unfold insertion_sort.
   destruct (ins_outer_spec (S (Z.to_nat (len l))) l 1 (len l) l) as (r & E & P & S);
     auto; try lia.
-  { pose proof (len_nonneg l); lia. }
   exists r; repeat split; auto. intros W. apply ssorted_of_idx with (d := d).
-  intros i j Hij Hj. apply S; auto; try lia. intros a b Hab Hb; lia.
+  intros i j Hij Hj. apply S; auto; try lia.
 Qed.
+
+(* ------------------------------------------------------------------ partition *)
+(* -- for every comparator: whatever partition returns is a permutation and a cut point in [1, count] *)
+Lemma scan_up_inv : forall fuel (items : list A) pivot i i',
+  scan_up lt fuel items pivot i = Ok i' -> i < i' /\ 0 <= i' < len items.
+Proof.
+  induction fuel as [|f IH]; intros items pivot i i' H; [discriminate|].
+  cbn [scan_up] in H. destruct (get items (i + 1)) as [x| | | | |] eqn:E; try discriminate; cbn [obind] in H.
+  apply (get_inv d) in E. destruct (lt x pivot).
+  - apply IH in H; lia.
+  - inversion H; lia.
+Qed.
+
+Lemma scan_down_inv : forall fuel (items : list A) pivot j j',
+  scan_down lt fuel items pivot j = Ok j' -> j' < j /\ 0 <= j' < len items.
+Proof.
+  induction fuel as [|f IH]; intros items pivot j j' H; [discriminate|].
+  cbn [scan_down] in H. destruct (get items (j - 1)) as [x| | | | |] eqn:E; try discriminate; cbn [obind] in H.
+  apply (get_inv d) in E. destruct (lt pivot x).
+  - apply IH in H; lia.
+  - inversion H; lia.
+Qed.
+
+Lemma part_loop_perm : forall fuel n (items : list A) pivot i j r p,
+  part_loop lt fuel n items pivot i j = Ok (r, p) ->
+  Permutation items r /\ len r = len items /\ 1 <= p <= len items.
+Proof.
+  induction fuel as [|f IH]; intros n items pivot i j r p H; [discriminate|].
+  cbn [part_loop] in H.
+  destruct (scan_up lt n items pivot i) as [i'| | | | |] eqn:E1; try discriminate; cbn [obind] in H.
+  destruct (scan_down lt n items pivot j) as [j'| | | | |] eqn:E2; try discriminate; cbn [obind] in H.
+  apply scan_up_inv in E1. apply scan_down_inv in E2.
+  destruct (j' <=? i').
+  - inversion H; subst. repeat split; auto; lia.
+  - destruct (swap items i' j') as [items'| | | | |] eqn:E3; try discriminate; cbn [obind] in H.
+    apply (swap_inv d) in E3. destruct E3 as (Hi & Hj & ->).
+    apply IH in H. destruct H as (P & L & R). rewrite len_swapz in *.
+    repeat split; auto; try lia. rewrite <- P. now apply perm_swapz.
+Qed.
+
+Lemma order2_perm : forall (items : list A) a b r,
+  order2 lt items a b = Ok r -> Permutation items r /\ len r = len items.
+Proof.
+  intros items a b r H. unfold order2 in H.
+  destruct (get items a) as [xa| | | | |]; try discriminate; cbn [obind] in H.
+  destruct (get items b) as [xb| | | | |]; try discriminate; cbn [obind] in H.
+  destruct (lt xa xb).
+  - apply (swap_inv d) in H. destruct H as (Hi & Hj & ->). split; [now apply perm_swapz|apply len_swapz].
+  - inversion H; auto.
+Qed.
+
+Theorem partition_perm : forall (items r : list A) p,
+  partition lt items = Ok (r, p) ->
+  Permutation items r /\ len r = len items /\ 1 <= p <= len items.
+Proof.
+  intros items r p H. unfold partition in H.
+  destruct (order2 lt items (len items - 1) 0) as [i1| | | | |] eqn:E1; try discriminate; cbn [obind] in H.
+  destruct (order2 lt i1 (Z.shiftr (len items - 1) 2) 0) as [i2| | | | |] eqn:E2; try discriminate; cbn [obind] in H.
+  destruct (order2 lt i2 (len items - 1) (Z.shiftr (len items - 1) 2)) as [i3| | | | |] eqn:E3; try discriminate;
+    cbn [obind] in H.
+  destruct (get i3 (Z.shiftr (len items - 1) 2)) as [pv| | | | |]; try discriminate; cbn [obind] in H.
+  apply order2_perm in E1, E2, E3. destruct E1 as (P1 & L1), E2 as (P2 & L2), E3 as (P3 & L3).
+  apply part_loop_perm in H. destruct H as (P & L & R).
+  repeat split; try lia. now rewrite P1, P2, P3.
+Qed.
+
+(* -- irreflexive comparator: the scans stop at a sentinel, so partition stays in bounds *)
+Lemma scan_up_spec : forall fuel (items : list A) pivot i s,
+  -1 <= i < s -> s < len items -> lt items.[s] pivot = false -> s - i <= Z.of_nat fuel ->
+  exists i', scan_up lt fuel items pivot i = Ok i' /\ i < i' <= s /\ lt items.[i'] pivot = false /\
+    forall k, i < k < i' -> lt items.[k] pivot = true.
+Proof.
+  induction fuel as [|f IH]; intros items pivot i s Hi Hs Hsent Hf; [lia|].
+  cbn [scan_up]. rewrite get_ok with (d := d) by lia; cbn [obind].
+  destruct (lt items.[i + 1] pivot) eqn:E.
+  - assert (i + 1 <> s) by (intros Heq; rewrite Heq in E; congruence).
+    destruct (IH items pivot (i + 1) s) as (i' & E' & R & St & Sc); auto; try lia.
+    exists i'; repeat split; auto; try lia. intros k Hk.
+    destruct (Z.eq_dec k (i + 1)) as [->|N]; auto. apply Sc; lia.
+  - exists (i + 1); repeat split; auto; try lia.
+Qed.
+
+Lemma scan_down_spec : forall fuel (items : list A) pivot j s,
+  0 <= s < j -> j <= len items -> lt pivot items.[s] = false -> j - s <= Z.of_nat fuel ->
+  exists j', scan_down lt fuel items pivot j = Ok j' /\ s <= j' < j /\ lt pivot items.[j'] = false /\
+    forall k, j' < k < j -> lt pivot items.[k] = true.
+Proof.
+  induction fuel as [|f IH]; intros items pivot j s Hj Hl Hsent Hf; [lia|].
+  cbn [scan_down]. rewrite get_ok with (d := d) by lia; cbn [obind].
+  destruct (lt pivot items.[j - 1]) eqn:E.
+  - assert (j - 1 <> s) by (intros Heq; rewrite Heq in E; congruence).
+    destruct (IH items pivot (j - 1) s) as (j' & E' & R & St & Sc); auto; try lia.
+    exists j'; repeat split; auto; try lia. intros k Hk.
+    destruct (Z.eq_dec k (j - 1)) as [->|N]; auto. apply Sc; lia.
+  - exists (j - 1); repeat split; auto; try lia.
+Qed.
+
+Lemma part_loop_spec : forall fuel n (items : list A) pivot i j si sj,
+  len items + 1 <= Z.of_nat n -> len items - i <= Z.of_nat fuel ->
+  -1 <= i < j -> j <= len items ->
+  i < si < len items -> lt items.[si] pivot = false ->
+  0 <= sj < j -> lt pivot items.[sj] = false ->
+  (si < len items - 1 \/ j <= len items - 1) ->
+  exists r p, part_loop lt fuel n items pivot i j = Ok (r, p) /\ 1 <= p <= len items - 1 /\
+    (strict_weak_order lt ->
+     (forall k, 0 <= k <= i -> le items.[k] pivot) ->
+     (forall k, j <= k < len items -> le pivot items.[k]) ->
+     (forall k, 0 <= k < p -> le r.[k] pivot) /\ (forall k, p <= k < len items -> le pivot r.[k])).
+Proof.
+  induction fuel as [|f IH]; intros n items pivot i j si sj Hn Hf Hij Hj Hsi Lsi Hsj Lsj Hhi; [lia|].
+  cbn [part_loop].
+  destruct (scan_up_spec n items pivot i si) as (i' & E1 & Ri & Sti & Sci); auto; try lia.
+  destruct (scan_down_spec n items pivot j sj) as (j' & E2 & Rj & Stj & Scj); auto; try lia.
+  rewrite E1, E2; cbn [obind].
+  destruct (Z.leb_spec j' i') as [Hc|Hc].
+  - exists items, (j' + 1); repeat split; auto; try lia.
+    + intros k Hk. destruct (Z_le_dec k i) as [?|?]; [apply H0; lia|].
+      destruct (Z.eq_dec k j') as [->|?]; [exact Stj|].
+      apply lt_le; auto. apply Sci; lia.
+    + intros k Hk. destruct (Z_le_dec j k) as [?|?]; [apply H1; lia|].
+      unfold le_of. apply swo_asym; auto. apply Scj; lia.
+  - rewrite swap_ok with (d := d) by lia; cbn [obind].
+    set (items' := swapz d items i' j').
+    assert (L : len items' = len items) by apply len_swapz.
+    assert (Sel : forall k, 0 <= k -> items'.[k] = if k =? j' then items.[i'] else if k =? i' then items.[j'] else items.[k])
+      by (intros; apply sel_swapz; lia).
+    destruct (IH n items' pivot i' j' j' i') as (r & p & E & Rp & S); try lia.
+    + rewrite Sel, Z.eqb_refl by lia. exact Sti.
+    + rewrite Sel by lia. destruct (Z.eqb_spec i' j'); [lia|]. rewrite Z.eqb_refl. exact Stj.
+    + exists r, p; repeat split; try lia; auto.
+      * rewrite L in S. apply S; auto.
+        -- intros k Hk. rewrite Sel by lia. destruct (Z.eqb_spec k j'); [lia|].
+           destruct (Z.eqb_spec k i') as [->|?]; [exact Stj|].
+           destruct (Z_le_dec k i) as [?|?]; [apply H0; lia|]. apply lt_le; auto. apply Sci; lia.
+        -- intros k Hk. rewrite Sel by lia. destruct (Z.eqb_spec k j') as [->|?]; [exact Sti|].
+           destruct (Z.eqb_spec k i'); [lia|].
+           destruct (Z_le_dec j k) as [?|?]; [apply H1; lia|].
+           unfold le_of. apply swo_asym; auto. apply Scj; lia.
+      * rewrite L in S. apply S; auto.
+        -- intros k Hk. rewrite Sel by lia. destruct (Z.eqb_spec k j'); [lia|].
+           destruct (Z.eqb_spec k i') as [->|?]; [exact Stj|].
+           destruct (Z_le_dec k i) as [?|?]; [apply H0; lia|]. apply lt_le; auto. apply Sci; lia.
+        -- intros k Hk. rewrite Sel by lia. destruct (Z.eqb_spec k j') as [->|?]; [exact Sti|].
+           destruct (Z.eqb_spec k i'); [lia|].
+           destruct (Z_le_dec j k) as [?|?]; [apply H1; lia|].
+           unfold le_of. apply swo_asym; auto. apply Scj; lia.
+Qed.
+
+Lemma order2_spec : forall (items : list A) a b,
+  0 <= a < len items -> 0 <= b < len items ->
+  exists r, order2 lt items a b = Ok r /\ len r = len items.
+Proof.
+  intros items a b Ha Hb. unfold order2. rewrite !get_ok with (d := d) by lia; cbn [obind].
+  destruct (lt items.[a] items.[b]).
+  - rewrite swap_ok with (d := d) by lia. eexists; split; eauto. apply len_swapz.
+  - eexists; split; eauto.
+Qed.
+
+Lemma shiftr2_range : forall hi, 1 <= hi -> 0 <= Z.shiftr hi 2 < hi.
+Proof. intros hi H. rewrite Z.shiftr_div_pow2 by lia. change (2 ^ 2) with 4. lia. Qed.
+
+Theorem partition_spec : irreflexive lt -> forall items : list A, 2 <= len items ->
+  exists r p, partition lt items = Ok (r, p) /\ Permutation items r /\ len r = len items /\
+    1 <= p <= len items - 1 /\
+    (strict_weak_order lt -> exists pivot,
+       (forall k, 0 <= k < p -> le r.[k] pivot) /\ (forall k, p <= k < len items -> le pivot r.[k])).
+Proof.
+  intros Irr items Hlen.
+  assert (G : exists r p, partition lt items = Ok (r, p) /\ 1 <= p <= len items - 1 /\
+    (strict_weak_order lt -> exists pivot,
+       (forall k, 0 <= k < p -> le r.[k] pivot) /\ (forall k, p <= k < len items -> le pivot r.[k]))).
+  { unfold partition.
+    pose proof (shiftr2_range (len items - 1) ltac:(lia)) as Hmid.
+    set (mid := Z.shiftr (len items - 1) 2) in *.
+    destruct (order2_spec items (len items - 1) 0) as (i1 & E1 & L1); try lia. rewrite E1; cbn [obind].
+    destruct (order2_spec i1 mid 0) as (i2 & E2 & L2); try lia. rewrite E2; cbn [obind].
+    destruct (order2_spec i2 (len items - 1) mid) as (i3 & E3 & L3); try lia. rewrite E3; cbn [obind].
+    rewrite get_ok with (d := d) by lia; cbn [obind].
+    assert (L : len i3 = len items) by lia.
+    destruct (part_loop_spec (S (length items)) (S (length items)) i3 i3.[mid] (-1) (len items) mid mid)
+      as (r & p & E & Rp & S); try (unfold len in *; lia); auto.
+    exists r, p. rewrite L in *. repeat split; auto; try lia.
+    intros W. exists i3.[mid]. apply S; auto; intros; lia. }
+  destruct G as (r & p & E & Rp & S). exists r, p.
+  destruct (partition_perm _ _ _ E) as (P & L & _). repeat split; auto; lia.
+Qed.
+
+(* ------------------------------------------------------------------ intro_sort, given heap_sort *)
+Definition sort_ok (f : list A -> outcome (list A)) : Prop :=
+  forall items, exists r, f items = Ok r /\ Permutation items r /\
+    (strict_weak_order lt -> StronglySorted le r).
+
+Lemma In_firstn_sel : forall (l : list A) n x, (n <= length l)%nat -> In x (firstn n l) ->
+  exists k, 0 <= k < Z.of_nat n /\ x = l.[k].
+Proof.
+  intros l n x Hn H. destruct (In_sel d _ _ H) as (k & Hk & ->).
+  rewrite len_firstn in Hk by lia. exists k; split; auto. apply sel_firstn; lia.
+Qed.
+
+Lemma In_skipn_sel : forall (l : list A) n x, (n <= length l)%nat -> In x (skipn n l) ->
+  exists k, Z.of_nat n <= k < len l /\ x = l.[k].
+Proof.
+  intros l n x Hn H. destruct (In_sel d _ _ H) as (k & Hk & ->).
+  rewrite len_skipn in Hk. exists (k + Z.of_nat n); split; [lia|]. apply sel_skipn; lia.
+Qed.
+
+Lemma intro_sort_from_heap : irreflexive lt -> sort_ok (heap_sort lt) ->
+  forall thr depth, sort_ok (intro_sort_thr lt thr depth).
+Proof.
+  intros Irr Heap thr depth. induction depth as [|dp IH]; intros items.
+  - (* max_depth = 0 *)
+    cbn [intro_sort_thr].
+    destruct (Z.leb_spec (len items) 1) as [H1|H1].
+    { exists items; repeat split; auto. intros _.
+      destruct items as [|a [|b t]]; [repeat constructor..|]. exfalso; unfold len in H1; cbn [length] in H1; lia. }
+    destruct (Z.eqb_spec (len items) 2) as [H2|H2].
+    { destruct items as [|a [|b [|c t]]]; try (unfold len in H2; cbn [length] in H2; lia).
+      unfold order2, swap, get, set; cbn. destruct (lt b a) eqn:E; eexists; repeat split; eauto.
+      - apply perm_swap.
+      - intros W. repeat constructor. now apply lt_le.
+      - intros W. repeat constructor. exact E. }
+    destruct (Z.leb_spec (len items) thr); [apply insertion_sort_spec|apply Heap].
+  - cbn [intro_sort_thr].
+    destruct (Z.leb_spec (len items) 1) as [H1|H1].
+    { exists items; repeat split; auto. intros _.
+      destruct items as [|a [|b t]]; [repeat constructor..|]. exfalso; unfold len in H1; cbn [length] in H1; lia. }
+    destruct (Z.eqb_spec (len items) 2) as [H2|H2].
+    { destruct items as [|a [|b [|c t]]]; try (unfold len in H2; cbn [length] in H2; lia).
+      unfold order2, swap, get, set; cbn. destruct (lt b a) eqn:E; eexists; repeat split; eauto.
+      - apply perm_swap.
+      - intros W. repeat constructor. now apply lt_le.
+      - intros W. repeat constructor. exact E. }
+    destruct (Z.leb_spec (len items) thr); [apply insertion_sort_spec|].
+    destruct (partition_spec Irr items ltac:(lia)) as (items' & p & E & P & L & Rp & S).
+    rewrite E; cbn [obind].
+    destruct (Z.ltb_spec p 0); [lia|]. destruct (Z.ltb_spec (len items) p); [lia|]. cbn [orb].
+    assert (Hn : (Z.to_nat p <= length items')%nat) by (unfold len in *; lia).
+    destruct (IH (firstn (Z.to_nat p) items')) as (left & El & Pl & Sl).
+    destruct (IH (skipn (Z.to_nat p) items')) as (right & Er & Pr & Sr).
+    rewrite El, Er; cbn [obind]. exists (left ++ right); repeat split; auto.
+    + rewrite P. rewrite <- (firstn_skipn (Z.to_nat p) items') at 1. now apply Permutation_app.
+    + intros W. destruct (S W) as (pivot & Sleft & Sright).
+      apply ssorted_app; auto. intros x y Hx Hy.
+      apply Permutation_sym in Pl, Pr.
+      apply (Permutation_in _ Pl) in Hx. apply (Permutation_in _ Pr) in Hy.
+      apply In_firstn_sel in Hx; auto. apply In_skipn_sel in Hy; auto.
+      destruct Hx as (k1 & Hk1 & ->), Hy as (k2 & Hk2 & ->).
+      apply le_trans with (y := pivot); auto; [apply Sleft|apply Sright]; lia.
+Qed.
+
+(* ------------------------------------------------------------------ heap_sort *)
+Lemma heap_parent_eq : forall n, heap_parent n = (n - 1) / 2.
+Proof. intros; unfold heap_parent. rewrite Z.shiftr_div_pow2 by lia. reflexivity. Qed.
+
+(* s is j or an ancestor of j in the implicit binary tree (parent n = (n-1)/2) *)
+Inductive anc (s : Z) : Z -> Prop :=
+| anc_refl : anc s s
+| anc_step : forall j, s < j -> anc s ((j - 1) / 2) -> anc s j.
+
+(* ... and every node on the way down from s to j is a largest child of its parent
+   (only meaningful, and only recorded, for a strict weak order) *)
+Inductive mpath (items : list A) (s e : Z) : Z -> Prop :=
+| mp_refl : mpath items s e s
+| mp_step : forall j, s < j -> mpath items s e ((j - 1) / 2) ->
+    (strict_weak_order lt -> forall c, (c - 1) / 2 = (j - 1) / 2 -> c <= e -> le items.[c] items.[j]) ->
+    mpath items s e j.
+
+Definition heap_on (items : list A) (lo e : Z) : Prop :=
+  forall c, c <= e -> lo <= (c - 1) / 2 -> le items.[c] items.[(c - 1) / 2].
+
+Lemma mpath_anc : forall items s e j, mpath items s e j -> anc s j.
+Proof. induction 1; [apply anc_refl|now apply anc_step]. Qed.
+
+Lemma anc_ge : forall s j, anc s j -> s <= j.
+Proof. induction 1; lia. Qed.
+
+Lemma mpath_transport : forall V V' s e q, 0 <= s -> mpath V s e q ->
+  (forall k, 0 <= k <= q + 1 -> V'.[k] = V.[k]) -> mpath V' s e q.
+Proof.
+  intros V V' s e q Hs H. induction H as [|j Hj H IH Hm]; intros Heq; [apply mp_refl|].
+  apply mp_step; auto.
+  - apply IH. intros k Hk. apply Heq. lia.
+  - intros W c Hc Hce. rewrite !Heq by lia. now apply Hm.
+Qed.
+
+Lemma updz_updz_same : forall (l : list A) i x y, updz (updz l i x) i y = updz l i y.
+Proof.
+  intros l i x y; unfold updz. generalize (Z.to_nat i) as n.
+  induction l; intros [|n]; cbn; auto. now rewrite IHl.
+Qed.
+
+(* -- leaf_search: walk down along the larger children *)
+Lemma leaf_search_spec : irreflexive lt -> forall fuel (items : list A) start j e,
+  e - j < Z.of_nat fuel -> 0 <= start <= j -> j <= e < len items -> mpath items start e j ->
+  exists j', leaf_search lt fuel items j e = Ok j' /\ j <= j' <= e /\ mpath items start e j' /\ e < 2 * j' + 1.
+Proof.
+  intros Irr. induction fuel as [|f IH]; intros items start j e Hf Hs He Hm; [lia|].
+  cbn [leaf_search]. unfold heap_right, heap_left.
+  destruct (Z.leb_spec (j * 2 + 2) e) as [Hr|Hr].
+  - rewrite !get_ok with (d := d) by lia; cbn [obind].
+    destruct (lt items.[j * 2 + 1] items.[j * 2 + 2]) eqn:E.
+    + destruct (IH items start (j * 2 + 2) e) as (j' & E' & R & M & L); try lia.
+      * apply mp_step; try lia.
+        -- replace ((j * 2 + 2 - 1) / 2) with j by lia. exact Hm.
+        -- intros W c Hc Hce. assert (c = j * 2 + 1 \/ c = j * 2 + 2) as [-> | ->] by lia.
+           ++ now apply lt_le.
+           ++ apply Irr.
+      * exists j'; repeat split; auto; lia.
+    + destruct (IH items start (j * 2 + 1) e) as (j' & E' & R & M & L); try lia.
+      * apply mp_step; try lia.
+        -- replace ((j * 2 + 1 - 1) / 2) with j by lia. exact Hm.
+        -- intros W c Hc Hce. assert (c = j * 2 + 1 \/ c = j * 2 + 2) as [-> | ->] by lia.
+           ++ apply Irr.
+           ++ exact E.
+      * exists j'; repeat split; auto; lia.
+  - destruct (Z.leb_spec (j * 2 + 1) e) as [Hl|Hl].
+    + exists (j * 2 + 1); repeat split; auto; try lia.
+      apply mp_step; try lia.
+      * replace ((j * 2 + 1 - 1) / 2) with j by lia. exact Hm.
+      * intros W c Hc Hce. assert (c = j * 2 + 1) as -> by lia. apply Irr.
+    + exists j; repeat split; auto; lia.
+Qed.
+
+(* -- climb: back up to the first node that is not smaller than the root *)
+Lemma climb_spec : irreflexive lt -> forall fuel (items : list A) start j e,
+  j < Z.of_nat fuel -> 0 <= start -> j <= e < len items -> mpath items start e j ->
+  (strict_weak_order lt -> forall c, (c - 1) / 2 = j -> c <= e -> le items.[c] items.[start]) ->
+  exists j', climb lt fuel items start j = Ok j' /\ j' <= e /\ mpath items start e j' /\
+    lt items.[j'] items.[start] = false /\
+    (strict_weak_order lt -> forall c, (c - 1) / 2 = j' -> c <= e -> le items.[c] items.[start]).
+Proof.
+  intros Irr. induction fuel as [|f IH]; intros items start j e Hf Hs He Hm Hc;
+    pose proof (anc_ge _ _ (mpath_anc _ _ _ _ Hm)) as Hge; [lia|].
+  cbn [climb]. rewrite !get_ok with (d := d) by lia; cbn [obind].
+  destruct (lt items.[j] items.[start]) eqn:E.
+  - inversion Hm as [Heq|j0 Hlt Hm' Hmax]; subst.
+    { rewrite Irr in E; discriminate. }
+    rewrite heap_parent_eq.
+    destruct (IH items start ((j - 1) / 2) e) as (j' & E' & R & M & St & C); auto; try lia.
+    + intros W c Hcp Hce. apply lt_le; auto. apply le_lt_trans with (y := items.[j]); auto.
+    + exists j'; repeat split; auto.
+  - exists j; repeat split; auto; lia.
+Qed.
+
+(* -- rotate: push the stored values up the path *)
+Lemma rotate_total : forall fuel (items : list A) store start j root,
+  j < Z.of_nat fuel -> 0 <= start -> anc start j -> j < len items ->
+  (start < j -> items.[start] = root) -> (j = start -> store = root) ->
+  exists r, rotate fuel items store start j = Ok r /\ len r = len items /\
+    (forall k, j < k -> r.[k] = items.[k]) /\ Permutation (store :: items) (root :: r).
+Proof.
+  induction fuel as [|f IH]; intros items store start j root Hf Hs Ha Hl Hroot Hst;
+    pose proof (anc_ge _ _ Ha) as Hge; [lia|].
+  cbn [rotate]. destruct (Z.ltb_spec start j) as [Hlt|Hlt].
+  - rewrite heap_parent_eq. inversion Ha as [Heq|j0 _ Ha' Heq]; subst; [lia|].
+    pose proof (anc_ge _ _ Ha') as Hge'.
+    rewrite get_ok with (d := d) by lia; cbn [obind]. rewrite set_ok by lia; cbn [obind].
+    set (p := (j - 1) / 2) in *.
+    destruct (IH (updz items p store) items.[p] start p root) as (r & E & L & K & P); auto; try lia.
+    + rewrite len_updz; lia.
+    + intros Hp. rewrite sel_updz_other by lia. apply Hroot; lia.
+    + intros ->. apply Hroot; lia.
+    + exists r. rewrite len_updz in L. repeat split; auto.
+      * intros k Hk. rewrite K by lia. apply sel_updz_other; lia.
+      * rewrite <- P. symmetry. apply perm_updz; lia.
+  - assert (j = start) by lia. subst. exists items; repeat split; auto. rewrite Hst; auto.
+Qed.
+
+Lemma rotate_heap : strict_weak_order lt -> forall fuel (items : list A) store start j e r,
+  rotate fuel items store start j = Ok r ->
+  0 <= start <= j -> j <= e < len items ->
+  mpath (updz items j store) start e j ->
+  (start < j -> le items.[j] store) ->
+  (start < j -> start < (j - 1) / 2 -> le store items.[(j - 1) / 2]) ->
+  (forall c, c <= e -> start <= (c - 1) / 2 -> (start + 1 <= (c - 1) / 2 \/ j = start) ->
+     le items.[c] items.[(c - 1) / 2]) ->
+  heap_on r start e.
+Proof.
+  intros W. induction fuel as [|f IH]; intros items store start j e r H Hs He Hm H3 H4 H5; [discriminate|].
+  cbn [rotate] in H. destruct (Z.ltb_spec start j) as [Hlt|Hlt].
+  - rewrite heap_parent_eq in H. set (p := (j - 1) / 2) in *.
+    assert (Hp : start <= p < j).
+    { inversion Hm as [Heq|j0 _ Hm' _ Heq]; subst; [lia|].
+      pose proof (anc_ge _ _ (mpath_anc _ _ _ _ Hm')). fold p in H0. lia. }
+    rewrite get_ok with (d := d) in H by lia; cbn [obind] in H.
+    rewrite set_ok in H by lia; cbn [obind] in H.
+    inversion Hm as [Heq|j0 _ Hm' Hmax Heq]; subst; [lia|]. fold p in Hm', Hmax.
+    specialize (Hmax W).
+    assert (Hsib : forall c, (c - 1) / 2 = p -> c <= e -> le items.[c] store).
+    { intros c Hc Hce. destruct (Z.eq_dec c j) as [->|N]; auto.
+      specialize (Hmax c Hc Hce). rewrite sel_updz_same in Hmax by lia.
+      rewrite sel_updz_other in Hmax by lia. exact Hmax. }
+    set (items' := updz items p store) in *.
+    assert (Sel : forall k, 0 <= k -> k <> p -> items'.[k] = items.[k])
+      by (intros; apply sel_updz_other; lia).
+    assert (Same : items'.[p] = store) by (apply sel_updz_same; lia).
+    assert (Len : len items' = len items) by apply len_updz.
+    apply (IH items' items.[p] start p e r H); try lia.
+    + unfold items'. rewrite updz_updz_same, updz_sel_id.
+      destruct (Z.eq_dec p start) as [->|Np]; [apply mp_refl|].
+      apply mpath_transport with (V := updz items j store); auto; try lia.
+      intros k Hk. symmetry. apply sel_updz_other; lia.
+    + intros Hsp. rewrite Same. apply H4; lia.
+    + intros Hsp Hspp. rewrite Sel by lia. apply H5; lia.
+    + intros c Hce Hcp Hor. destruct (Z.eq_dec ((c - 1) / 2) p) as [Ecp|Ncp].
+      * rewrite Ecp, Same. rewrite Sel by lia. apply Hsib; auto.
+      * destruct (Z.eq_dec c p) as [->|Ncc].
+        -- rewrite Same. rewrite Sel by lia.
+           apply le_trans with (y := items.[p]); auto; [apply H4; lia|apply H5; lia].
+        -- rewrite !Sel by lia. apply H5; auto. lia.
+  - assert (j = start) by lia. subst. inversion H; subst. intros c Hce Hcp. apply H5; auto.
+Qed.
+
+Theorem sift_down_spec : irreflexive lt -> forall (items : list A) start e,
+  0 <= start <= e -> e < len items ->
+  exists r, sift_down lt items start e = Ok r /\ len r = len items /\ Permutation items r /\
+    (forall k, e < k -> r.[k] = items.[k]) /\
+    (strict_weak_order lt -> heap_on items (start + 1) e -> heap_on r start e).
+Proof.
+  intros Irr items start e Hs He. unfold sift_down.
+  destruct (leaf_search_spec Irr (S (Z.to_nat e)) items start start e) as (j0 & E0 & R0 & M0 & L0);
+    try lia; [apply mp_refl|].
+  rewrite E0; cbn [obind].
+  destruct (climb_spec Irr (S (S (Z.to_nat j0))) items start j0 e) as (j & E1 & R1 & M1 & St & C1);
+    try lia; auto.
+  rewrite E1; cbn [obind].
+  pose proof (mpath_anc _ _ _ _ M1) as An. pose proof (anc_ge _ _ An) as Hge.
+  rewrite !get_ok with (d := d) by lia; cbn [obind]. rewrite set_ok by lia; cbn [obind].
+  set (root := items.[start]) in *. set (items1 := updz items j root).
+  assert (Len1 : len items1 = len items) by apply len_updz.
+  destruct (rotate_total (S (Z.to_nat j)) items1 items.[j] start j root) as (r & E2 & L2 & K2 & P2);
+    auto; try lia.
+  { intros Hlt. unfold items1. rewrite sel_updz_other by lia. reflexivity. }
+  { intros ->. reflexivity. }
+  exists r; repeat split; auto; try lia.
+  - pose proof (perm_updz d items j root ltac:(lia)) as P. fold items1 in P.
+    rewrite P2 in P. apply Permutation_cons_inv in P. now symmetry.
+  - intros k Hk. rewrite K2 by lia. unfold items1. apply sel_updz_other; lia.
+  - intros W Hheap.
+    assert (Sel : forall k, 0 <= k -> k <> j -> items1.[k] = items.[k])
+      by (intros; apply sel_updz_other; lia).
+    assert (Same : items1.[j] = root) by (apply sel_updz_same; lia).
+    apply (rotate_heap W _ _ _ _ _ _ _ E2); try lia.
+    + unfold items1. rewrite updz_updz_same, updz_sel_id. exact M1.
+    + intros Hlt. rewrite Same. exact St.
+    + intros Hlt Hp. rewrite Sel by lia. apply Hheap; lia.
+    + intros c Hce Hcp Hor.
+      destruct (Z.eq_dec ((c - 1) / 2) j) as [Ecj|Ncj].
+      * rewrite Ecj, Same. rewrite Sel by lia. apply C1; auto.
+      * destruct (Z.eq_dec c j) as [->|Nc].
+        -- rewrite Same. rewrite Sel by lia.
+           apply le_trans with (y := items.[j]); auto. apply Hheap; lia.
+        -- rewrite !Sel by lia. apply Hheap; lia.
+Qed.
+
+Lemma heap_build_spec : irreflexive lt -> forall fuel (items : list A) start count,
+  count = len items -> -1 <= start <= count - 1 -> start + 1 < Z.of_nat fuel ->
+  exists r, heap_build lt fuel items start count = Ok r /\ len r = len items /\ Permutation items r /\
+    (strict_weak_order lt -> heap_on items (start + 1) (count - 1) -> heap_on r 0 (count - 1)).
+Proof.
+  intros Irr. induction fuel as [|f IH]; intros items start count Hc Hs Hf; [lia|].
+  cbn [heap_build]. destruct (Z.leb_spec 0 start) as [H0|H0].
+  - destruct (sift_down_spec Irr items start (count - 1)) as (r1 & E1 & L1 & P1 & K1 & S1); try lia.
+    rewrite E1; cbn [obind].
+    destruct (IH r1 (start - 1) count) as (r & E & L & P & S); try lia.
+    exists r; repeat split; auto; try lia.
+    + now rewrite P1.
+    + intros W Hh. apply S; auto. replace (start - 1 + 1) with start by lia. apply S1; auto.
+  - exists items; repeat split; auto. intros W Hh. replace (start + 1) with 0 in Hh by lia. exact Hh.
+Qed.
+
+Lemma heap_root_max : strict_weak_order lt -> forall (items : list A) e, heap_on items 0 e ->
+  forall k, 0 <= k <= e -> le items.[k] items.[0].
+Proof.
+  intros W items e Hh.
+  assert (G : forall n : nat, forall k, 0 <= k <= Z.of_nat n -> k <= e -> le items.[k] items.[0]).
+  { induction n as [|n IH]; intros k Hk Hke.
+    - assert (k = 0) as -> by lia. apply (swo_irrefl lt W).
+    - destruct (Z.eq_dec k 0) as [->|N]; [apply (swo_irrefl lt W)|].
+      apply le_trans with (y := items.[(k - 1) / 2]); auto.
+      + apply Hh; lia.
+      + apply IH; lia. }
+  intros k Hk. apply (G (Z.to_nat k)); lia.
+Qed.
+
+Lemma perm_firstn : forall (l r : list A) n, Permutation l r ->
+  (forall k, Z.of_nat n <= k -> r.[k] = l.[k]) -> Permutation (firstn n l) (firstn n r).
+Proof.
+  intros l r n P H.
+  assert (Hlen : length l = length r) by now apply Permutation_length.
+  assert (E : skipn n l = skipn n r).
+  { apply (nth_ext _ _ d d).
+    - rewrite !skipn_length; lia.
+    - intros i _. pose proof (sel_skipn d l n (Z.of_nat i) ltac:(lia)) as E1.
+      pose proof (sel_skipn d r n (Z.of_nat i) ltac:(lia)) as E2.
+      unfold sel in E1, E2. rewrite Nat2Z.id in E1, E2. rewrite E1, E2.
+      symmetry. apply H. lia. }
+  rewrite <- (firstn_skipn n l), <- (firstn_skipn n r), E in P.
+  now apply Permutation_app_inv_r in P.
+Qed.
+
+Lemma prefix_perm_sel : forall (l r : list A) n, Permutation l r ->
+  (forall k, n <= k -> r.[k] = l.[k]) -> forall a, 0 <= a < n -> n <= len l ->
+  exists k, 0 <= k < n /\ r.[a] = l.[k].
+Proof.
+  intros l r n P H a Ha Hn.
+  assert (Hlen : length l = length r) by now apply Permutation_length.
+  pose proof (perm_firstn l r (Z.to_nat n) P ltac:(intros; apply H; lia)) as PF.
+  assert (In r.[a] (firstn (Z.to_nat n) r)).
+  { rewrite <- (sel_firstn d r (Z.to_nat n) a) by lia. apply sel_In.
+    rewrite len_firstn by (unfold len in *; lia). lia. }
+  apply (Permutation_in _ (Permutation_sym PF)) in H0.
+  apply In_firstn_sel in H0; [|unfold len in *; lia].
+  destruct H0 as (k & Hk & Ek). exists k; split; auto; lia.
+Qed.
+
+Lemma heap_drain_spec : irreflexive lt -> forall fuel (items : list A) e,
+  -1 <= e < len items -> e + 1 < Z.of_nat fuel ->
+  exists r, heap_drain lt fuel items e = Ok r /\ len r = len items /\ Permutation items r /\
+    (strict_weak_order lt -> heap_on items 0 e ->
+     (forall a b, e < a < b -> b < len items -> le items.[a] items.[b]) ->
+     (forall a b, 0 <= a <= e -> e < b < len items -> le items.[a] items.[b]) ->
+     forall a b, 0 <= a < b -> b < len items -> le r.[a] r.[b]).
+Proof.
+  intros Irr. induction fuel as [|f IH]; intros items e He Hf; [lia|].
+  cbn [heap_drain]. destruct (Z.ltb_spec 0 e) as [H0|H0].
+  - rewrite swap_ok with (d := d) by lia; cbn [obind].
+    set (items1 := swapz d items 0 e).
+    assert (L1 : len items1 = len items) by apply len_swapz.
+    assert (Sel1 : forall k, 0 <= k -> items1.[k] = if k =? e then items.[0] else if k =? 0 then items.[e] else items.[k])
+      by (intros; apply sel_swapz; lia).
+    destruct (sift_down_spec Irr items1 0 (e - 1)) as (items2 & E2 & L2 & P2 & K2 & S2); try lia.
+    rewrite E2; cbn [obind].
+    destruct (IH items2 (e - 1)) as (r & E & L & P & S); try lia.
+    exists r; repeat split; auto; try lia.
+    + rewrite <- P, <- P2. apply perm_swapz; lia.
+    + intros W Hh Hsuf Hcross a b Hab Hb.
+      assert (Hin : forall k, 0 <= k <= e -> le items1.[k] items.[0] /\
+                                 forall b, e < b < len items -> le items1.[k] items.[b]).
+      { intros k Hk. rewrite Sel1 by lia.
+        destruct (Z.eqb_spec k e) as [->|?]; [|destruct (Z.eqb_spec k 0) as [->|?]].
+        - split; [apply (swo_irrefl lt W)|intros; apply Hcross; lia].
+        - split; [apply heap_root_max with (e := e); auto; lia|intros; apply Hcross; lia].
+        - split; [apply heap_root_max with (e := e); auto; lia|intros; apply Hcross; lia]. }
+      rewrite L2, L1 in S. apply S; auto; try lia.
+      * (* heap on [0, e-1] *)
+        apply S2; auto. intros c Hce Hcp. rewrite !Sel1 by lia.
+        destruct (Z.eqb_spec c e); [lia|]. destruct (Z.eqb_spec c 0); [lia|].
+        destruct (Z.eqb_spec ((c - 1) / 2) e); [lia|]. destruct (Z.eqb_spec ((c - 1) / 2) 0); [lia|].
+        apply Hh; lia.
+      * (* the sorted suffix grows by the old root *)
+        intros a' b' Hab' Hb'. rewrite !K2 by lia. rewrite !Sel1 by lia.
+        destruct (Z.eqb_spec b' e); [lia|]. destruct (Z.eqb_spec b' 0); [lia|].
+        destruct (Z.eqb_spec a' e) as [->|?].
+        -- apply Hcross; lia.
+        -- destruct (Z.eqb_spec a' 0); [lia|]. apply Hsuf; lia.
+      * (* everything left in the heap is below the suffix *)
+        intros a' b' Ha' Hb'.
+        destruct (prefix_perm_sel items1 items2 e P2 ltac:(intros; apply K2; lia) a' ltac:(lia) ltac:(lia))
+          as (k & Hk & ->).
+        rewrite K2 by lia. rewrite (Sel1 b') by lia.
+        destruct (Z.eqb_spec b' e) as [->|?].
+        -- apply (proj1 (Hin k ltac:(lia))).
+        -- destruct (Z.eqb_spec b' 0); [lia|]. apply (proj2 (Hin k ltac:(lia))); lia.
+  - exists items; repeat split; auto. intros W Hh Hsuf Hcross a b Hab Hb.
+    destruct (Z_le_dec a e); [apply Hcross; lia|apply Hsuf; lia].
+Qed.
+
+Theorem heap_sort_spec : irreflexive lt -> sort_ok (heap_sort lt).
+Proof.
+  intros Irr items. unfold heap_sort. pose proof (len_nonneg items) as Hn.
+  rewrite heap_parent_eq.
+  destruct (heap_build_spec Irr (S (Z.to_nat (len items))) items ((len items - 1 - 1) / 2) (len items))
+    as (r1 & E1 & L1 & P1 & S1); auto; try lia.
+  rewrite E1; cbn [obind].
+  destruct (heap_drain_spec Irr (S (Z.to_nat (len items))) r1 (len items - 1)) as (r & E & L & P & S); try lia.
+  exists r; repeat split; auto.
+  - now rewrite P1.
+  - intros W. apply ssorted_of_idx with (d := d). intros i j Hij Hj.
+    apply S; auto; try lia.
+    apply S1; auto. intros c Hce Hcp. lia.
+Qed.
+
+Theorem intro_sort_spec : irreflexive lt -> forall thr depth, sort_ok (intro_sort_thr lt thr depth).
+Proof. intros Irr. apply intro_sort_from_heap; auto. now apply heap_sort_spec. Qed.
+
+End Algorithms.
+
+(* ====================================================================== main results *)
+Definition sorted_by {A} (lt : A -> A -> bool) (l : list A) : Prop :=
+  Sorted (fun a b => lt b a = false) l.
+
+Lemma ssorted_sorted_by : forall A (lt : A -> A -> bool) l, StronglySorted (le_of lt) l -> sorted_by lt l.
+Proof. intros A lt l H. apply StronglySorted_Sorted in H. exact H. Qed.
+
+(* the default element of the index lemmas is only a proof device: take the head of the list *)
+Lemma sort_ok_nil : forall A (lt : A -> A -> bool) (f : list A -> outcome (list A)),
+  f [] = Ok [] -> (forall d : A, sort_ok lt f) -> sort_ok lt f.
+Proof.
+  intros A lt f Hnil H [|a l]; [|exact (H a (a :: l))].
+  exists []; repeat split; auto. constructor.
+Qed.
+
+(* -- insertion sort: EVERY comparator *)
+Theorem insertion_sort_lemma : forall A (lt : A -> A -> bool) (l : list A),
+  exists r, insertion_sort lt l = Ok r /\ Permutation l r /\
+    (strict_weak_order lt -> StronglySorted (le_of lt) r).
+Proof.
+  intros A lt. apply sort_ok_nil; [reflexivity|]. intros d l. apply insertion_sort_spec; exact d.
+Qed.
+
+(* -- partition: EVERY comparator, whenever it returns *)
+Theorem partition_permutation_lemma : forall A (lt : A -> A -> bool) (l r : list A) p,
+  partition lt l = Ok (r, p) -> Permutation l r /\ length r = length l /\ 1 <= p <= len l.
+Proof.
+  intros A lt [|a l] r p H.
+  - vm_compute in H. discriminate.
+  - destruct (partition_perm lt a _ _ _ H) as (P & L & R). repeat split; auto; try lia.
+    unfold len in L; lia.
+Qed.
+
+(* -- partition: irreflexive comparator: in bounds; strict weak order: it splits around a pivot *)
+Theorem partition_lemma : forall A (lt : A -> A -> bool) (l : list A),
+  irreflexive lt -> 2 <= len l ->
+  exists r p, partition lt l = Ok (r, p) /\ Permutation l r /\ 1 <= p <= len l - 1 /\
+    (strict_weak_order lt -> exists pivot,
+       Forall (fun x => le_of lt x pivot) (firstn (Z.to_nat p) r) /\
+       Forall (fun y => le_of lt pivot y) (skipn (Z.to_nat p) r)).
+Proof.
+  intros A lt [|a l] Irr H; [unfold len in H; cbn in H; lia|].
+  destruct (partition_spec lt a Irr (a :: l) H) as (r & p & E & P & L & R & S).
+  exists r, p; repeat split; auto; try lia. intros W. destruct (S W) as (pivot & S1 & S2).
+  assert (Hn : (Z.to_nat p <= length r)%nat) by (unfold len in *; lia).
+  exists pivot; split; apply Forall_forall; intros x Hx.
+  - apply (In_firstn_sel a) in Hx; auto. destruct Hx as (k & Hk & ->). apply S1; lia.
+  - apply (In_skipn_sel a) in Hx; auto. destruct Hx as (k & Hk & ->). apply S2; lia.
+Qed.
+
+(* -- heap sort, intro sort (every threshold, every depth), sort: irreflexive comparator *)
+Theorem heap_sort_lemma : forall A (lt : A -> A -> bool) (l : list A), irreflexive lt ->
+  exists r, heap_sort lt l = Ok r /\ Permutation l r /\
+    (strict_weak_order lt -> StronglySorted (le_of lt) r).
+Proof.
+  intros A lt l Irr. revert l. apply sort_ok_nil; [reflexivity|]. intros d. now apply heap_sort_spec.
+Qed.
+
+Theorem intro_sort_thr_lemma : forall A (lt : A -> A -> bool) thr depth (l : list A), irreflexive lt ->
+  exists r, intro_sort_thr lt thr depth l = Ok r /\ Permutation l r /\
+    (strict_weak_order lt -> StronglySorted (le_of lt) r).
+Proof.
+  intros A lt thr depth l Irr. revert l. apply sort_ok_nil.
+  - destruct depth; reflexivity.
+  - intros d. now apply intro_sort_spec.
+Qed.
+
+Theorem intro_sort_lemma : forall A (lt : A -> A -> bool) depth (l : list A), irreflexive lt ->
+  exists r, intro_sort lt depth l = Ok r /\ Permutation l r /\
+    (strict_weak_order lt -> StronglySorted (le_of lt) r).
+Proof. intros. now apply intro_sort_thr_lemma. Qed.
+
+Theorem sort_thr_lemma : forall A (lt : A -> A -> bool) thr (l : list A), irreflexive lt ->
+  exists r, sort_thr lt thr l = Ok r /\ Permutation l r /\
+    (strict_weak_order lt -> StronglySorted (le_of lt) r).
+Proof. intros. now apply intro_sort_thr_lemma. Qed.
+
+(* the three statements about `sort` (current generated threshold) *)
+Theorem sort_no_crash_lemma : forall A (lt : A -> A -> bool) (l : list A), irreflexive lt ->
+  exists r, sort lt l = Ok r.
+Proof. intros A lt l Irr. destruct (sort_thr_lemma A lt (Z.of_N sort_insertion_threshold) l Irr) as (r & E & _). eauto. Qed.
+
+Theorem sort_permutation_lemma : forall A (lt : A -> A -> bool) (l r : list A), irreflexive lt ->
+  sort lt l = Ok r -> Permutation l r.
+Proof.
+  intros A lt l r Irr H. destruct (sort_thr_lemma A lt (Z.of_N sort_insertion_threshold) l Irr) as (r' & E & P & _).
+  unfold sort in H. congruence.
+Qed.
+
+Theorem sort_sorted_lemma : forall A (lt : A -> A -> bool) (l r : list A), strict_weak_order lt ->
+  sort lt l = Ok r -> sorted_by lt r /\ StronglySorted (le_of lt) r.
+Proof.
+  intros A lt l r W H.
+  destruct (sort_thr_lemma A lt (Z.of_N sort_insertion_threshold) l (swo_irrefl lt W)) as (r' & E & _ & S).
+  unfold sort in H. assert (r' = r) by congruence. subst. split; auto. apply ssorted_sorted_by; auto.
+Qed.
+
+(* all in one, as the property reads: any array, any strict ordering -> an ordered permutation *)
+Theorem sort_ordered_permutation_lemma : forall A (lt : A -> A -> bool) (l : list A), strict_weak_order lt ->
+  exists r, sort lt l = Ok r /\ Permutation l r /\ sorted_by lt r.
+Proof.
+  intros A lt l W. destruct (sort_no_crash_lemma A lt l (swo_irrefl lt W)) as (r & E).
+  exists r; repeat split; auto.
+  - eapply sort_permutation_lemma; eauto. apply (swo_irrefl lt W).
+  - eapply sort_sorted_lemma; eauto.
+Qed.
+
+(* ---------------------------------------------------------------- the hypotheses are satisfiable *)
+Lemma swo_by_key : forall A (f : A -> Z), strict_weak_order (fun a b => f a <? f b).
+Proof.
+  intros A f; constructor; intros *.
+  - apply Z.ltb_irrefl.
+  - rewrite !Z.ltb_lt; lia.
+  - rewrite !Z.ltb_ge; lia.
+Qed.
+
+Example cmp_lt_swo : strict_weak_order cmp_lt.
+Proof. exact (swo_by_key Z (fun x => x)). Qed.
+Example cmp_gt_swo : strict_weak_order cmp_gt.
+Proof. exact (swo_by_key Z (fun x => - x)) || (constructor; unfold cmp_gt; intros *; rewrite ?Z.ltb_lt, ?Z.ltb_ge; try lia; apply Z.ltb_irrefl). Qed.
+Example cmp_key_swo : strict_weak_order cmp_key.
+Proof. exact (swo_by_key Z (fun x => Z.shiftr x 3)). Qed.
+
+Example sort_example : sort cmp_key [17; 3; 9; 8; 1; 16; 0]%Z = Ok [3; 1; 0; 9; 8; 17; 16]%Z.
+Proof. vm_compute. reflexivity. Qed.
+
+(* ---------------------------------------------------------------- the hypotheses are needed *)
+(* a comparator that is not irreflexive (1 "before" 1): heap_sort returns, but loses an element *)
+Theorem heap_sort_needs_irreflexive_refuted :
+  exists (lt : Z -> Z -> bool) l r, heap_sort lt l = Ok r /\ ~ Permutation l r.
+Proof.
+  exists (fun x y => (x <? y) || ((x =? 1) && (y =? 1))), [5; 1; 9; 0], [0; 1; 1; 9].
+  split; [vm_compute; reflexivity|]. intros P.
+  apply (Permutation_in 5) in P; [|cbn; auto]. cbn in P. intuition discriminate.
+Qed.
+
+(* a comparator that is not irreflexive ("always before"): partition runs off the array *)
+Theorem sort_needs_irreflexive_refuted :
+  exists (lt : Z -> Z -> bool) l, sort lt l = Crash.
+Proof.
+  exists (fun _ _ => true), (repeat 0 20). vm_compute. reflexivity.
+Qed.
+
+Print Assumptions insertion_sort_lemma.
+Print Assumptions partition_permutation_lemma.
+Print Assumptions partition_lemma.
+Print Assumptions heap_sort_lemma.
+Print Assumptions intro_sort_thr_lemma.
+Print Assumptions sort_no_crash_lemma.
+Print Assumptions sort_permutation_lemma.
+Print Assumptions sort_sorted_lemma.
+Print Assumptions sort_ordered_permutation_lemma.
+Print Assumptions heap_sort_needs_irreflexive_refuted.
+Print Assumptions sort_needs_irreflexive_refuted.
